@@ -152,9 +152,10 @@ def run(ctx, R, tier):
                 def is_fact(edge):
                     if edge.test is None:
                         return False
-                    for atom, pol in facts_of(edge.test, edge.polarity):
-                        if pol is False and isinstance(atom, ast.Call) and unparse(atom.func) == "loopCondition":
-                            return True
+                    for t_ in edge.tests():
+                        for atom, pol in facts_of(t_, edge.polarity):
+                            if pol is False and isinstance(atom, ast.Call) and unparse(atom.func) == "loopCondition":
+                                return True
                     return False
                 for node in cfg.nodes_for(e):
                     if not cfg.guarded(node, is_fact):
